@@ -644,9 +644,18 @@ func c11GenChain(r *rand.Rand) string {
 	if n == 0 {
 		return "-"
 	}
+	// At most one ensure: two of them around a modifying method lock the
+	// non-reentrant controlLock twice (no route of the program does that).
 	ws := make([]string, n)
+	hasEnsure := false
 	for i := range ws {
 		ws[i] = vutil.Pick(r, pool)
+		if strings.HasPrefix(ws[i], "ensure:") {
+			if hasEnsure {
+				ws[i] = vutil.Pick(r, pool[:4])
+			}
+			hasEnsure = true
+		}
 	}
 
 	return strings.Join(ws, ",")
@@ -721,11 +730,16 @@ func c11Gen(r *rand.Rand, emit vutil.Emit) {
 				method = vutil.Pick(r, []string{"GET", "POST", "PUT", "DELETE"})
 			}
 			var path string
-			switch r.IntN(4) {
+			switch r.IntN(5) {
 			case 0:
 				path = vutil.Pick(r, c11Fixed)
 			case 1:
 				path = c11Soup(r)
+			case 2:
+				path = vutil.Pick(r, []string{
+					"/login.html", "/", "/index.html", "/assets/app.js", "/login.js", "/install.html",
+					"/assets/a/b.js", "/install.js", "/assets/", "/login.",
+				})
 			default:
 				path = pats[r.IntN(len(pats))]
 			}
